@@ -215,3 +215,52 @@ def long_chain_idoms(lc, core_idoms):
         for i in range(1, L):
             want[ch + i] = ch + i - 1
     return want
+
+
+def long_cases(thorough, limit):
+    """The 'long-chain' / 'big-fan' families as a deterministic list of case descriptors (each is also the witness).
+    limit = sys.getrecursionlimit() once androguard.decompiler is imported (5000): L1 = limit//4 + 50, L2 = 2*L1.
+      chain: core embedded 'behind' (entry -> chain of L -> core) or 'before' (every core node -> tail of L) a chain
+      fan  : core whose entry additionally has L leaf successors (inserted after / before the core's own edges)
+    quick   : chain: every rooted core on <= 3 nodes x {behind, before} x L1; every core on <= 2 nodes x {behind, before}
+              x {plain, each node a diamond} x {L1, L2};  fan (leaves last, L1): every core on <= 3 nodes and every
+              'ordered DFS tree + <= 2 extra edges' core on 5 nodes
+    thorough: chain: cores on <= 3 nodes and rooted 4-node cores with <= 5 edges x both modes x plain/diamond x L1/L2,
+              tree+<=2 cores on 5 nodes behind L1;  fan: both leaf positions, plus tree+3 on 5 nodes, 4-node cores <= 6 edges
+    """
+    L1 = limit // 4 + 50
+    L2 = 2 * L1
+    small = [(n, edge_list(n, m)) for n in (1, 2, 3) for m in rooted_masks(n)]
+    tiny = [c for c in small if c[0] <= 2]
+    t52 = [(5, e) for e, _k in tree_plus(5, 2)]
+    out = []
+
+    def chain(cores, modes, dias, Ls):
+        for (k, ce) in cores:
+            for mode in modes:
+                for dia in dias:
+                    for L in Ls:
+                        out.append({"kind": "chain", "k": k, "core": [list(e) for e in ce], "mode": mode, "L": L,
+                                    "diamond": dia})
+
+    def fan(cores, firsts):
+        for (k, ce) in cores:
+            for first in firsts:
+                out.append({"kind": "fan", "k": k, "core": [list(e) for e in ce], "L": L1, "first": first})
+    if not thorough:
+        chain(small, ("behind", "before"), (False,), (L1,))
+        chain(tiny, ("behind", "before"), (False, True), (L1, L2))
+        fan(small + t52, (False,))
+    else:
+        four5 = [(4, e) for e in sparse_rooted(4, 5)]
+        four6 = [(4, e) for e in sparse_rooted(4, 6)]
+        chain(small + four5, ("behind", "before"), (False, True), (L1, L2))
+        chain(t52, ("behind",), (False,), (L1,))
+        fan(small + [(5, e) for e, _k in tree_plus(5, 3)] + four6, (False, True))
+    seen, uniq = set(), []
+    for c in out:                       # quick lists the tiny cores twice
+        key = repr(sorted(c.items()))
+        if key not in seen:
+            seen.add(key)
+            uniq.append(c)
+    return uniq
